@@ -153,4 +153,73 @@ theorem replaceEnvVars_dollar (env : Env) (pre name post : Bytes) (fuel : Nat) (
   simp only [hdrop, hend, hgt, if_true, href, hname, hrepl]
   rw [replaceEnvRefs, hnone]
 
+
+theorem indexOfGo_step (pat : Bytes) (b : UInt8) (t : Bytes) (i : Nat) (h : pat.isPrefixOf (b :: t) = false) :
+    indexOfGo pat (b :: t) i = indexOfGo pat t (i + 1) := by
+  conv => lhs; unfold indexOfGo
+  simp only [h, Bool.false_eq_true, if_false]
+
+/-- the text `pre{%name%}post` -/
+def percentRef (pre name post : Bytes) : Bytes := pre ++ (0x7B :: 0x25 :: (name ++ 0x25 :: 0x7D :: post))
+
+/-- one `{%NAME%}` in a token whose other bytes, name and value are free of `{` (and the name of `%` and `}`) is replaced by the value -/
+theorem replaceEnvVars_percent (env : Env) (pre name post : Bytes) (fuel : Nat) (hfuel : 2 ≤ fuel)
+    (h1 : (0x7B : UInt8) ∉ pre) (h2 : (0x7B : UInt8) ∉ name) (h3 : (0x7B : UInt8) ∉ post)
+    (h4 : (0x7B : UInt8) ∉ getenv env name) (h5 : (0x7D : UInt8) ∉ name) (h5' : (0x25 : UInt8) ∉ name) (h6 : name ≠ []) :
+    replaceEnvVars env fuel (percentRef pre name post) = some (pre ++ getenv env name ++ post) := by
+  obtain ⟨k, rfl⟩ : ∃ k, fuel = k + 2 := ⟨fuel - 2, by omega⟩
+  obtain ⟨n0, ns, rfl⟩ : ∃ n0 ns, name = n0 :: ns := by
+    cases name with
+    | nil => exact absurd rfl h6
+    | cons a t => exact ⟨a, t, rfl⟩
+  have hn0 : n0 ≠ 0x7D := fun e => h5 (by simp [e])
+  have hidx : indexOf (percentRef pre (n0 :: ns) post) pctOpen = some pre.length := by
+    unfold indexOf percentRef pctOpen
+    rw [indexOfGo_skip _ _ _ _ _ h1]
+    rw [indexOfGo_hit _ _ _ (by simp) (by simp [List.isPrefixOf])]
+    simp
+  have hdrop : (percentRef pre (n0 :: ns) post).drop pre.length = 0x7B :: 0x25 :: ((n0 :: ns) ++ 0x25 :: 0x7D :: post) := by
+    unfold percentRef; simp
+  have hend : indexOf (0x7B :: 0x25 :: ((n0 :: ns) ++ 0x25 :: 0x7D :: post)) pctClose = some (2 + (n0 :: ns).length) := by
+    unfold indexOf pctClose
+    rw [indexOfGo_step _ _ _ _ (by simp [List.isPrefixOf])]
+    rw [indexOfGo_step _ _ _ _ (by simp [List.isPrefixOf]; exact fun e => hn0 e.symm)]
+    rw [indexOfGo_skip _ _ _ _ _ h5']
+    rw [indexOfGo_hit _ _ _ (by simp) (by simp [List.isPrefixOf])]
+  have hgt : 2 + (n0 :: ns).length > pctOpen.length := by unfold pctOpen; simp only [List.length_cons, List.length_nil]; omega
+  have href : (0x7B :: 0x25 :: ((n0 :: ns) ++ 0x25 :: 0x7D :: post) : Bytes).take (2 + (n0 :: ns).length + pctClose.length) =
+      0x7B :: 0x25 :: ((n0 :: ns) ++ [0x25, 0x7D]) := by
+    unfold pctClose
+    have e : (0x7B : UInt8) :: 0x25 :: ((n0 :: ns) ++ 0x25 :: 0x7D :: post) = ((0x7B : UInt8) :: 0x25 :: ((n0 :: ns) ++ [0x25, 0x7D])) ++ post := by simp
+    have l : 2 + (n0 :: ns).length + [(0x25 : UInt8), 0x7D].length = ((0x7B : UInt8) :: 0x25 :: ((n0 :: ns) ++ [0x25, 0x7D])).length := by
+      simp; omega
+    rw [e, l, take_append_len]
+  have hname : ((0x7B :: 0x25 :: ((n0 :: ns) ++ [0x25, 0x7D]) : Bytes).drop pctOpen.length).take
+      ((0x7B :: 0x25 :: ((n0 :: ns) ++ [0x25, 0x7D]) : Bytes).length - pctOpen.length - pctClose.length) = n0 :: ns := by
+    unfold pctOpen pctClose
+    simp only [List.length_cons, List.length_nil, List.length_append, List.drop_succ_cons, List.drop_zero]
+    have : ns.length + 1 + (0 + 1 + 1) + 1 + 1 - (0 + 1 + 1) - (0 + 1 + 1) = (n0 :: ns).length := by simp
+    rw [this, take_append_len]
+  have hrepl : replaceAll (percentRef pre (n0 :: ns) post) (0x7B :: 0x25 :: ((n0 :: ns) ++ [0x25, 0x7D])) (getenv env (n0 :: ns)) =
+      pre ++ getenv env (n0 :: ns) ++ post := by
+    have e : percentRef pre (n0 :: ns) post = pre ++ (0x7B :: (0x25 :: ((n0 :: ns) ++ [0x25, 0x7D]))) ++ post := by
+      unfold percentRef; simp
+    rw [e]
+    exact replaceAll_once 0x7B _ _ pre post h1 h3
+  have hno7B : (0x7B : UInt8) ∉ pre ++ getenv env (n0 :: ns) ++ post := by
+    simp only [List.mem_append, not_or]; exact ⟨⟨h1, h4⟩, h3⟩
+  have hnone1 : indexOf (pre ++ getenv env (n0 :: ns) ++ post) pctOpen = none := by
+    unfold indexOf pctOpen; exact indexOfGo_none _ _ _ _ hno7B
+  have hnone2 : indexOf (pre ++ getenv env (n0 :: ns) ++ post) dolOpen = none := by
+    unfold indexOf dolOpen; exact indexOfGo_none _ _ _ _ hno7B
+  unfold replaceEnvVars
+  have hp1 : replaceEnvRefs env pctOpen pctClose (k + 2) (percentRef pre (n0 :: ns) post) =
+      some (pre ++ getenv env (n0 :: ns) ++ post) := by
+    rw [replaceEnvRefs, hidx]
+    simp only [hdrop, hend, hgt, if_true, href, hname, hrepl]
+    rw [replaceEnvRefs, hnone1]
+  rw [hp1]
+  simp only
+  rw [replaceEnvRefs, hnone2]
+
 end Casket.Parser
